@@ -100,6 +100,10 @@ def gen(rng, tier, i):
         host, hclass = ("10.9.%d.%d" % (rng.randint(0, 255), rng.randint(1, 254))).encode(), "ipv4"
     else:
         host, hclass = ("fd09::%x" % rng.randint(1, 65535)).encode(), "ipv6"
+        if outb != "direct" and rng.random() < 0.4:
+            # IPv6 addresses with an IPv4 look-alike inside (v4-compatible ::/96, loopback, unspecified, v4-mapped, NAT64),
+            # link-local and multicast: none of them is an IPv4 destination
+            host, hclass = rng.choice([b"::1", b"::", b"::102:304", b"::a09:707", b"::ffff:10.9.7.7", b"64:ff9b::a09:707", b"fe80::1", b"ff02::1", b"::ffff:0:1"]), "ipv6-special"
     while inb == "socks4a" and kind == "domain" and b"\x00" in host:
         host, hclass = hostile_host(rng)
     if inb == "socks4a" and kind == "ipv6":
@@ -210,6 +214,10 @@ def same_dest(kind, host, port, got_kind, got_host, got_port):
             return False
     try:
         want = ipaddress.ip_address(host.decode())
+        if want.version == 6 and want.ipv4_mapped is not None and got_kind != "domain":
+            # ::ffff:a.b.c.d denotes the IPv4 host a.b.c.d: either spelling is the same destination
+            g = ipaddress.ip_address(got_host)
+            return g == want or g == want.ipv4_mapped
         if got_kind == "domain":
             return ipaddress.ip_address(got_host.decode("ascii").strip("[]")) == want
         return ipaddress.ip_address(got_host) == want
